@@ -179,7 +179,7 @@ func TestTCP(t *testing.T) {
 	r.Rule("TCP: command sequences from per-protocol grammars (ftp, smtp incl. DATA/BDAT, redis, memcached, telnet, http keep-alive, elasticsearch, eos, ethereum, docker, cwmp, ldap) plus telnet / ftp / memcached / smtp dialogs with 2-, 3- and 4-byte UTF-8 characters in their text fields, delivered through the real server on the in-memory listener as a single write (pipelined), lock-step, k random cuts (half of them inside a multi-byte character when there is one) and 1-byte dribble; oracle = expected event list computed from the generated command list (reference) AND equality with the single-write event list (metamorphic); non-trivial = >=2 commands and (a cut or >=2 requests in one write); distinct by wire bytes + delivery")
 	r.Rapid(t, "TestTCP", r.Pick(560, 3200), func(rt *rapid.T) {
 		service := rapid.SampledFrom(tcpKinds).Draw(rt, "service")
-		d := genTCP(rt, service)
+		d, hot := genTCPHot(rt, service)
 		mode := rapid.SampledFrom([]string{"single", "lockstep", "cuts", "cuts", "dribble"}).Draw(rt, "mode")
 		var cuts []int
 		n := len(d.Stream())
@@ -192,12 +192,21 @@ func TestTCP(t *testing.T) {
 					cuts = append(cuts, rapid.SampledFrom(inChar).Draw(rt, "cut"))
 					continue
 				}
+				if len(hot) > 0 && rapid.Bool().Draw(rt, "cut-in-header") {
+					// boundary-biased: a cut inside a unit's length-bearing header
+					cuts = append(cuts, rapid.SampledFrom(hot).Draw(rt, "cut"))
+					continue
+				}
 				cuts = append(cuts, rapid.IntRange(1, n-1).Draw(rt, "cut"))
 			}
 		}
 		if mode == "dribble" && n > 600 {
 			mode = "cuts"
 			cuts = []int{n / 3, n / 2}
+			if len(hot) > 0 {
+				// too long for a 1-byte dribble of everything: dribble through the units' headers
+				cuts = append(cuts, hot...)
+			}
 		}
 		c := toCase(d, mode, cuts)
 		for _, k := range knownExclusions(r, c) {
@@ -351,7 +360,13 @@ func TestUDP(t *testing.T) {
 	r.Rule("UDP: datagrams for dns, tftp, snmp, memcached (8-byte header, 1..3 command lines) and counterstrike, each handed to the server's dispatcher as the socket listener does (wrapped in the timeout connection), from a fresh source address; oracle = the datagram's decoded fields appear in exactly the expected events; non-trivial = datagram that decodes")
 	r.Rapid(t, "TestUDP", r.Pick(1000, 6000), func(rt *rapid.T) {
 		service := rapid.SampledFrom(svc.UDPServices).Draw(rt, "service")
-		d := svc.GenUDP(rt, service)
+		var d svc.Dialog
+		if (service == "snmp" || service == "dns") && rapid.Bool().Draw(rt, "big") {
+			d = genUDPBig(rt, service)
+			service += "-big"
+		} else {
+			d = svc.GenUDP(rt, service)
+		}
 		if service == "tftp" && rapid.Bool().Draw(rt, "upload") {
 			d = svc.GenTFTPUpload(rt)
 			service = "tftp-upload"
